@@ -227,7 +227,7 @@ fn starts() -> impl Strategy<Value = u32> {
 }
 
 fn case_strategy() -> impl Strategy<Value = Case> {
-    (starts(), proptest::collection::vec(op(), 1..60), proptest::collection::vec(1usize..4, 7)).prop_map(|(start, ops, counts)| Case { start, ops, counts })
+    (starts(), proptest::collection::vec(op(), 1..60), proptest::collection::vec(prop_oneof![6 => 1usize..4, 1 => prop_oneof![Just(255usize), Just(256), Just(65_535), Just(65_536), Just(65_537), Just(70_000), Just((u32::MAX as usize) + 2)]], 7)).prop_map(|(start, ops, counts)| Case { start, ops, counts })
 }
 
 fn cmp_strategy() -> impl Strategy<Value = (u32, i64)> {
